@@ -11,6 +11,7 @@ mod c_alloc;
 mod c_flatten;
 mod c_interp;
 mod c_misc;
+mod c_grad;
 mod c_view;
 mod c_jit;
 mod c_trace;
@@ -83,6 +84,7 @@ fn guarded(contract: &str, rest: &[String]) -> serde_json::Value {
 pub fn run(contract: &str, thorough: bool, seed: u64) -> Report {
     match contract {
         "rev_range" => c_misc::rev_range(),
+        "grad_rules" => c_grad::grad_rules(thorough),
         "view" => c_view::view(thorough),
         "interp_point" => c_interp::interp_point(thorough),
         "interp_bulk" => c_interp::interp_bulk(thorough),
